@@ -430,7 +430,10 @@ def novalue_checks():
                 'eq': lambda x: x == 1, 'lt': lambda x: x < 1, 'len': lambda x: len(x), 'bool': lambda x: bool(x),
                 'getitem': lambda x: x[0], 'iter': lambda x: list(x), 'hash': lambda x: hash(x), 'bytes': lambda x: bytes(x),
                 'float': lambda x: float(x), 'neg': lambda x: -x, 'contains': lambda x: 1 in x, 'mul': lambda x: x * 2,
-                'index': lambda x: [1, 2, 3][x]}
+                'index': lambda x: [1, 2, 3][x],
+                # comparison with itself and with another valueless object of the type
+                'eq-self': lambda x: x == x, 'ne-self': lambda x: x != x, 'eq-schema': lambda x: x == x.clone(),
+                'le-self': lambda x: x <= x}
         for name, f in uses.items():
             n += 1
             try:
